@@ -585,15 +585,15 @@ func (fr *Frame) binop(st *State, i *ssa.BinOp) Value {
 		case token.AND_NOT:
 			r = F.bitop(OBand, ii.w, ux, F.Sub(F.Int(ii2max(ii.w)), uy))
 		}
-		if ii.signed {
-			// x | -x idiom: sign bit set iff x != 0
-			if i.Op == token.OR {
-				if fr.isNegOf(st, i.Y, x) {
-					fr.v.orNeg[i] = x
-				} else if fr.isNegOf(st, i.X, y) {
-					fr.v.orNeg[i] = y
-				}
+		// x | -x idiom: top bit set iff x != 0 (signed and unsigned words)
+		if i.Op == token.OR {
+			if fr.isNegOf(st, i.Y, x) {
+				fr.v.orNeg[i] = x
+			} else if fr.isNegOf(st, i.X, y) {
+				fr.v.orNeg[i] = y
 			}
+		}
+		if ii.signed {
 			return F.WrapS(ii.w, r)
 		}
 		return r
@@ -613,8 +613,11 @@ func (fr *Frame) binop(st *State, i *ssa.BinOp) Value {
 		if y.IsConst() {
 			k := int(y.K.Int64())
 			// x | -x >> w-1 idiom
-			if base, ok := fr.v.orNeg[i.X]; ok && ii.signed && k == ii.w-1 {
-				return F.Ite(F.Eq(base, F.I64(0)), F.I64(0), F.I64(-1))
+			if base, ok := fr.v.orNeg[i.X]; ok && k == ii.w-1 {
+				if ii.signed {
+					return F.Ite(F.Eq(base, F.I64(0)), F.I64(0), F.I64(-1))
+				}
+				return F.Ite(F.Eq(base, F.I64(0)), F.I64(0), F.I64(1))
 			}
 			if k >= ii.w || (ii.signed && k == ii.w-1) {
 				if ii.signed {
